@@ -23,6 +23,7 @@
 #define VX_UNCH_CS_BELOW(q, n) (__CPROVER_forall { size_t q; (q < VX_CAP) ==> (q < (n) ==> VX_CS.the_data[q] == __CPROVER_old(VX_CS).the_data[q]) })
 #define VX_UNCH_VS_BELOW(q, n) (__CPROVER_forall { size_t q; (q < VX_CAP) ==> (q < (n) ==> VX_VS.the_data[q] == __CPROVER_old(VX_VS).the_data[q]) })
 
+bool g_noerr;
 /* harness: every global gets an arbitrary value; the buffer is allocated */
 void vx_havoc(void)
 {
@@ -42,13 +43,15 @@ void vx_havoc(void)
   unsigned n1; vx_ev_n = n1; int k1; vx_ev_kind = k1; vx_value id; vx_next_id = id;
   unsigned n2, n3, n4, n5; vx_tv_n = n2; vx_inv_n = n3; vx_lex_n = n4; vx_ev_err_n = n5;
   unsigned l1, l2; g_sp_line = l1; g_sp_col = l2;
-  vx_thrown = 0;
+  vx_thrown = 0; bool ne; g_noerr = ne;
 }
 
 /* ---- event / state shorthand for contracts ---- */
 #define VX_SPCODE(sp) ((((unsigned long)(sp).line) << 32) | (unsigned long)(sp).column)
 #define VX_EV_NONE (vx_ev_n == __CPROVER_old(vx_ev_n) && vx_ev_kind == __CPROVER_old(vx_ev_kind) && vx_ev_a0 == __CPROVER_old(vx_ev_a0) && vx_ev_a1 == __CPROVER_old(vx_ev_a1) && vx_ev_a2 == __CPROVER_old(vx_ev_a2))
-#define VX_EV_ONE(k) (vx_ev_n == __CPROVER_old(vx_ev_n) + 1 && vx_ev_kind == (k))
+/* ghost counters saturate at 1000 (vx_emit etc.), so the real arithmetic keeps its overflow checks */
+#define VX_INC(x) (__CPROVER_old(x) < 1000 ? (x) == __CPROVER_old(x) + 1 : (x) == __CPROVER_old(x))
+#define VX_EV_ONE(k) (VX_INC(vx_ev_n) && vx_ev_kind == (k))
 #define VX_EV_VERBOSE_ONLY(k) (ps_options.verbose ? VX_EV_ONE(k) : VX_EV_NONE)
 #define VX_SP_MIRROR (g_sp_line == ps_current_sp.line && g_sp_col == ps_current_sp.column)
 #undef VX_SP_OK
@@ -71,9 +74,9 @@ void vx_havoc(void)
    custom (C18): the weakest contract the README grants a use_lexer<L>: either a default-constructed result
    or (index < sizeof...(Terms), 1 <= len <= end - start).  On failure `len` is NOT constrained. ---- */
 #define VX_LEXER_CONTRACT \
-__CPROVER_requires(__CPROVER_same_object(start, g_buf) && __CPROVER_same_object(end, g_buf) && VX_OFF(start) < VX_OFF(end) && VX_OFF(end) <= g_len && vx_lex_n < 900) \
+__CPROVER_requires(__CPROVER_same_object(start, g_buf) && __CPROVER_same_object(end, g_buf) && VX_OFF(start) < VX_OFF(end) && VX_OFF(end) <= g_len) \
 __CPROVER_assigns(vx_lex_n, vx_lex_start, vx_lex_end, VX_EV) \
-__CPROVER_ensures(vx_lex_n == __CPROVER_old(vx_lex_n) + 1 && vx_lex_start == start && vx_lex_end == end) \
+__CPROVER_ensures(VX_INC(vx_lex_n) && vx_lex_start == start && vx_lex_end == end) \
 __CPROVER_ensures(__CPROVER_return_value.term_idx == uninitialized16 || (__CPROVER_return_value.term_idx < P_TERMS && __CPROVER_return_value.len >= 1 && __CPROVER_return_value.len <= VX_OFF(end) - VX_OFF(start))) \
 __CPROVER_ensures(o.verbose ? vx_ev_n >= __CPROVER_old(vx_ev_n) : VX_EV_NONE)
 struct recognized_term vx_lexer_generated(struct match_options o, struct source_point sp, const char* start, const char* end)
@@ -82,3 +85,135 @@ struct recognized_term vx_lexer_custom(struct match_options o, struct source_poi
 VX_LEXER_CONTRACT;
 /* reduce: the rule being reduced and its length */
 #define VX_RI(a) (gi.rule_infos[a])
+
+/* short NUL-terminated table handed to find_char by skip_whitespace (ghost description, checked at the call) */
+const char* g_ws; size_t g_wn;
+#define VX_WSTAB (g_wn < 8 && __CPROVER_r_ok(g_ws, g_wn + 1) && g_ws[g_wn] == 0 && __CPROVER_forall { size_t vq_ws; (vq_ws < 8) ==> (vq_ws < g_wn ==> g_ws[vq_ws] != 0) })
+
+/* ================= driver loop: ghost snapshot at loop head and step relation (C02 C08 C09 C14) ================= */
+struct cvec16 g_h_cs; struct cvecv g_h_vs; bool g_h_rec, g_h_con; const char *g_h_it, *g_h_end; unsigned g_h_ev, g_h_lex, g_h_tv, g_h_inv, g_h_err; vx_value g_h_next; size16_t g_h_term;
+/* after get_current_term: */
+size16_t g_t; const char *g_l_it, *g_l_end; unsigned g_l_ev; unsigned long g_l_sp; bool g_have_t;
+#define VX_SNAP_HEAD() do { g_h_cs = ps_cursor_stack; g_h_vs = ps_value_stack; g_h_rec = ps_recovery_mode; g_h_con = ps_consume_mode; g_h_it = ps_current_it; g_h_end = ps_current_end_it; \
+   g_h_ev = vx_ev_n; g_h_lex = vx_lex_n; g_h_tv = vx_tv_n; g_h_inv = vx_inv_n; g_h_err = vx_ev_err_n; g_h_next = vx_next_id; g_h_term = ps_current_term_idx; g_have_t = 0; \
+   __CPROVER_assume(vx_next_id < 0xfffffff0u); /* ghost id counter does not wrap: fewer than 2^32 semantic values per parse */ } while (0)
+#define VX_SNAP_LEX() do { g_t = g_h_rec ? (size16_t)error_recovery_token_idx : ps_current_term_idx; g_l_it = ps_current_it; g_l_end = ps_current_end_it; g_l_ev = vx_ev_n; g_l_sp = VX_SPCODE(ps_current_sp); g_have_t = 1; } while (0)
+/* the table entry the specification says governs this iteration: row = state on top at loop head, column = the term presented */
+#define VX_HTOP (g_h_cs.the_data[g_h_cs.current_size - 1])
+#define VX_HE (parse_table[VX_HTOP][VX_COL(g_t)])
+#define VX_A(c, txt) __CPROVER_assert(c, txt)
+#define VX_STACKS_UNCHANGED (VX_CS.current_size == g_h_cs.current_size && VX_VS.current_size == g_h_vs.current_size && \
+   __CPROVER_forall { size_t vq_su; (vq_su < VX_CAP) ==> ((vq_su < g_h_cs.current_size ==> VX_CS.the_data[vq_su] == g_h_cs.the_data[vq_su]) && (vq_su < g_h_vs.current_size ==> VX_VS.the_data[vq_su] == g_h_vs.the_data[vq_su])) })
+#define VX_BELOW_UNCHANGED(nc, nv) (__CPROVER_forall { size_t vq_bu; (vq_bu < VX_CAP) ==> ((vq_bu < (nc) ==> VX_CS.the_data[vq_bu] == g_h_cs.the_data[vq_bu]) && (vq_bu < (nv) ==> VX_VS.the_data[vq_bu] == g_h_vs.the_data[vq_bu])) })
+
+/* C06/C12 stack/capacity: checked, then assumed, so that what follows is not reported a second time.
+   On the unchanged tree this obligation FAILS for fixed-size stacks (known finding D8). */
+#define VX_CAPACITY(c) do { __CPROVER_assert(c, "stack/capacity: the fixed-size stacks (N + EmptyRulesCount + 1) have room for this push"); __CPROVER_assume(c); } while (0)
+/* checked at every `continue` and at the end of the loop body */
+void vx_step(void)
+{
+  VX_A(g_have_t && g_t != uninitialized16 && g_t < term_count, "driver/step: a term was presented");
+  uint8_t k = VX_HE.kind; size16_t arg = VX_HE.arg;
+  if (k == parse_table_entry_kind__error) {
+    if (g_h_con) {
+      /* C08 consume: while discarding input, a term the parser cannot act on is discarded (and nothing else happens) */
+      VX_A(g_t != eof_idx, "consume: end of input while discarding ends the parse");
+      VX_A(ps_current_it == g_l_end && ps_current_end_it == g_l_end, "consume: exactly the pending term is discarded");
+      VX_A(VX_STACKS_UNCHANGED, "consume: stacks untouched while discarding input");
+      VX_A(ps_consume_mode && !ps_recovery_mode, "consume: mode unchanged");
+      VX_A(ps_options.verbose || vx_ev_n == g_l_ev, "consume: silent when not verbose");
+      VX_A(vx_tv_n == g_h_tv && vx_inv_n == g_h_inv, "consume: no functor runs");
+    } else if (!g_h_rec) {
+      /* C08 enter: error detected outside recovery */
+      VX_A(ps_options.verbose || (g_l_ev < 1000 ==> vx_ev_n == g_l_ev + 1), "recovery/enter: exactly one message for the error");
+      VX_A(ps_options.verbose || (vx_ev_kind == EV_PARSE_Syntax_error && vx_ev_a0 == g_l_sp && vx_ev_a1 == (unsigned long)term_names[g_t]), "recovery/enter: 'Syntax error' with the position and name of the offending term");
+      VX_A(ps_recovery_mode && !ps_consume_mode, "recovery/enter: recovery mode entered");
+      VX_A(VX_CS.current_size == g_h_cs.current_size, "recovery/enter: no state is discarded before the current top has been offered the error symbol");
+      VX_A(VX_STACKS_UNCHANGED, "recovery/enter: values of states that are not discarded are kept");
+      VX_A(ps_current_it == g_l_it && ps_current_end_it == g_l_end, "recovery/enter: the offending term stays pending");
+      VX_A(vx_tv_n == g_h_tv && vx_inv_n == g_h_inv, "recovery/enter: no functor runs");
+    } else {
+      /* C08 pop: the top cannot accept the error symbol */
+      VX_A(VX_CS.current_size + 1 == g_h_cs.current_size && VX_VS.current_size == (g_h_vs.current_size == 0 ? 0 : g_h_vs.current_size - 1), "recovery/pop: exactly one state (and its value) discarded");
+      VX_A(VX_BELOW_UNCHANGED(VX_CS.current_size, VX_VS.current_size), "recovery/pop: values of states that are not discarded are kept");
+      VX_A(ps_recovery_mode && !ps_consume_mode, "recovery/pop: still recovering");
+      VX_A(ps_options.verbose || vx_ev_n == g_l_ev, "recovery/pop: silent when not verbose");
+      VX_A(ps_current_it == g_l_it && ps_current_end_it == g_l_end, "recovery/pop: input untouched");
+      VX_A(vx_tv_n == g_h_tv && vx_inv_n == g_h_inv, "recovery/pop: no functor runs");
+    }
+    return;
+  }
+  /* an actionable entry: executed in this very iteration, consume mode left */
+  VX_A(ps_options.verbose || vx_ev_n == g_l_ev, "driver/step: a normal action writes nothing when not verbose");
+  if (k == parse_table_entry_kind__shift) {
+    VX_A(!g_h_rec && !ps_recovery_mode && !ps_consume_mode, "driver/shift: not recovering; consume mode left");
+    VX_A(VX_CS.current_size == g_h_cs.current_size + 1 && VX_CS.the_data[VX_CS.current_size - 1] == arg, "driver/shift: the entry's target state is pushed");
+    VX_A(VX_VS.current_size == g_h_vs.current_size + 1 && VX_BELOW_UNCHANGED(g_h_cs.current_size, g_h_vs.current_size), "driver/shift: one value pushed, the rest kept");
+    VX_A((g_h_tv < 1000 ==> vx_tv_n == g_h_tv + 1) && vx_inv_n == g_h_inv, "driver/shift: exactly one term functor call, no rule functor");
+    VX_A(vx_tv_term == g_t && vx_tv_p == g_l_it && vx_tv_len == (size_t)(g_l_end - g_l_it) && vx_tv_sp == g_l_sp && VX_VS.the_data[VX_VS.current_size - 1] == vx_tv_id,
+         "driver/shift: the value is the term's own functor applied to exactly the pending lexeme, with the source point of its first byte");
+    VX_A(ps_current_it == g_l_end && ps_current_end_it == g_l_end, "driver/shift: the lexeme is consumed");
+  } else if (k == parse_table_entry_kind__shift_error_recovery_token) {
+    VX_A(g_h_rec, "recovery/shift: only while recovering");
+    VX_A(VX_CS.current_size == g_h_cs.current_size + 1 && VX_CS.the_data[VX_CS.current_size - 1] == arg, "recovery/shift: the error symbol is shifted from the topmost state that accepts it");
+    VX_A(VX_VS.current_size == g_h_vs.current_size + 1 && VX_BELOW_UNCHANGED(g_h_cs.current_size, g_h_vs.current_size), "recovery/shift: values of states that are not discarded are kept");
+    VX_A((g_h_err < 1000 ==> vx_ev_err_n == g_h_err + 1) && vx_ev_err_sp == g_l_sp && vx_tv_n == g_h_tv && vx_inv_n == g_h_inv, "recovery/shift: the error value carries the current source point; no functor runs");
+    VX_A(!ps_recovery_mode && ps_consume_mode, "recovery/shift: recovery left, input discarding entered");
+    VX_A(ps_current_it == g_l_it && ps_current_end_it == g_l_end, "recovery/shift: input untouched");
+  } else if (k == parse_table_entry_kind__reduce || k == parse_table_entry_kind__rr_conflict) {
+    size16_t n = gi.rule_infos[arg].r_elements;
+    VX_A(!ps_consume_mode && ps_recovery_mode == g_h_rec, "driver/reduce: consume mode left, recovery unchanged");
+    VX_A(VX_CS.current_size + n == g_h_cs.current_size + 1 && VX_VS.current_size + n == g_h_vs.current_size + 1, "driver/reduce: pops r_elements states and values, pushes one of each");
+    VX_A(VX_CS.the_data[VX_CS.current_size - 1] == parse_table[VX_CS.the_data[VX_CS.current_size - 2]][gi.rule_infos[arg].l_idx].arg, "driver/reduce: goto of the uncovered state on the rule's left side");
+    VX_A(VX_BELOW_UNCHANGED(VX_CS.current_size - 1, VX_VS.current_size - 1), "driver/reduce: everything below the popped slice is kept");
+    VX_A((g_h_inv < 1000 ==> vx_inv_n == g_h_inv + 1) && vx_tv_n == g_h_tv && vx_inv_rule == gi.rule_infos[arg].r_idx && vx_inv_len == n && VX_VS.the_data[VX_VS.current_size - 1] == vx_inv_id,
+         "driver/reduce: exactly one call, of the functor of the rule the entry names; its result is pushed");
+    VX_A(__CPROVER_forall { size_t vq_ra; (vq_ra < PH_MAXLEN) ==> (vq_ra < n ==> vx_inv_arg[vq_ra] == g_h_vs.the_data[g_h_vs.current_size - n + vq_ra]) }, "driver/reduce: the functor receives the popped values in right-side order");
+    VX_A(ps_current_it == g_l_it && ps_current_end_it == g_l_end, "driver/reduce: input untouched");
+  } else {
+    VX_A(0, "driver/step: success and unknown kinds do not continue the loop");
+  }
+}
+
+/* checked at every `break` */
+void vx_exit(struct vx_opt root_value)
+{
+  if (!g_have_t || g_t == uninitialized16) {
+    /* lexical failure */
+    VX_A(g_have_t && !g_h_rec && VX_OFF(g_h_it) == VX_OFF(g_h_end), "exit/lexical: only when a new term was needed");
+    VX_A(!root_value.has, "exit/lexical: no value");
+    VX_A(ps_options.verbose || ((g_h_ev < 1000 ==> vx_ev_n == g_h_ev + 1) && vx_ev_kind == EV_PARSE_Unexpected_character), "exit/lexical: exactly one 'Unexpected character' report");
+    VX_A(VX_STACKS_UNCHANGED && vx_tv_n == g_h_tv && vx_inv_n == g_h_inv, "exit/lexical: nothing else happens");
+    return;
+  }
+  uint8_t k = VX_HE.kind;
+  if (k == parse_table_entry_kind__error) {
+    VX_A(!root_value.has, "exit/error: no value");
+    if (g_h_con) {
+      VX_A(g_t == eof_idx, "consume: the parse is abandoned only at end of input");
+      VX_A(ps_options.verbose || vx_ev_n == g_l_ev, "consume: silent when not verbose");
+    } else {
+      VX_A(g_h_rec, "recovery/enter: no state is discarded before the current top has been offered the error symbol (exit)");
+      VX_A(VX_CS.current_size == 0 && g_h_cs.current_size == 1, "recovery/pop: recovery fails exactly when the last state has been discarded");
+    }
+    VX_A(vx_tv_n == g_h_tv && vx_inv_n == g_h_inv, "exit/error: no functor runs");
+    return;
+  }
+  VX_A(k == parse_table_entry_kind__success, "exit/success: the loop ends otherwise only on a success entry");
+  VX_A(root_value.has && root_value.v == g_h_vs.the_data[0] && VX_STACKS_UNCHANGED, "exit/success: the result is the bottom of the value stack");
+  VX_A(vx_tv_n == g_h_tv && vx_inv_n == g_h_inv, "exit/success: no functor runs");
+  VX_A(ps_options.verbose || vx_ev_n == g_l_ev, "exit/success: silent when not verbose");
+}
+
+/* the loop invariant, conjunct by conjunct (diagnostics: names which part a change breaks) */
+void vx_inv_parts(void)
+{
+  VX_A(VX_WF_STACKS && VX_CS.current_size >= 1 && VX_VS.current_size + 1 == VX_CS.current_size, "stack/sync: one value per state above the initial state");
+  VX_A(VX_CS_RANGE, "stack/range: every state on the stack is a state of the table");
+  VX_A(VX_VS_LINEAR, "ids/linear: value ids on the stack are pairwise distinct and never reused");
+  VX_A(VX_WF_BUF, "buffer: position and pending lexeme inside the caller's buffer");
+  VX_A(VX_SP_OK && VX_SP_MIRROR && g_pos == ps_current_it, "sp/contiguity: the source point describes the first byte of the pending term");
+  VX_A(VX_PENDING_OK, "pending: the pending term is a term of the grammar or eof");
+  VX_A(!(ps_recovery_mode && ps_consume_mode), "modes: recovery and consume mode exclude each other");
+  VX_A((!ps_options.verbose && g_noerr) ==> (vx_ev_n == (ps_recovery_mode ? 1 : 0) && !ps_consume_mode && (ps_recovery_mode ==> vx_ev_kind == EV_PARSE_Syntax_error)), "driver/messages: without error rules and not verbose, nothing is written until the one error message");
+}
